@@ -52,6 +52,27 @@ Theorem C08_parent_cycle : forall f fmts fs path cid chain, In path chain -> loa
 Proof. exact load_cycle. Qed.
 Print Assumptions C08_parent_cycle.
 
+(* loading terminates by the cycle check alone: the chain holds distinct names of the directory, so the depth bound
+   of the model (which the real loadFileAndParents does not have) is never what ends a load - the result is the same
+   for every fuel above the number of directory entries. False of the code before fix 1453be7, where a link's
+   target replaced its path in the chain and a.yaml -> a.x.yaml recursed without end. *)
+Theorem C08_parent_fuel_irrelevant : forall fmts fs f1 f2 path cid chain,
+  NoDup chain -> incl chain (map fst fs) ->
+  List.length (map fst fs) < f1 + List.length chain -> List.length (map fst fs) < f2 + List.length chain ->
+  load_chain f1 fmts fs path cid chain = load_chain f2 fmts fs path cid chain.
+Proof. exact load_fuel_irrelevant. Qed.
+Print Assumptions C08_parent_fuel_irrelevant.
+
+Theorem C08_parent_fuel_enough : forall fmts fs path cid k,
+  load_chain (2 + List.length fs) fmts fs path cid [] = load_chain (2 + List.length fs + k) fmts fs path cid [].
+Proof. exact load_fuel_enough. Qed.
+Print Assumptions C08_parent_fuel_enough.
+
+(* the base is a link to its own child layer: reported as a cycle *)
+Example C08_link_cycle :
+  load_chain 4 ["yaml"] [("a.x.yaml", FReg (Ok [VMap [("ax", VInt 1)]])); ("a.yaml", FLink "a.x.yaml")] "a.x.yaml" None [] = Err ECircular.
+Proof. vm_compute. reflexivity. Qed.
+
 (* non-vacuity: the premises of C08_interp_cycle hold for a: $"{a}" *)
 Example C08_interp_premises :
   noclose "a" /\ is_interp "$""{a}""" = true /\ trim_suffix """" (trim_prefix "$""" "$""{a}""") = "{a}".
